@@ -927,8 +927,11 @@ def mutants_text(rng, src, k=6):
         out.append((src[:pos] + f"    if false {{ {kw}; }};\n" + src[pos:], kw + "OutsideLoop", f"fn-head@{pos}"))
     # rename one use of a let-bound variable
     uses = [m for m in re.finditer(r"\b(v\d+|p\d+)\b", src)]
-    decl = set(m.start(1) for m in re.finditer(r"\blet (v\d+)", src)) | set(m.start(1) for m in re.finditer(r"[(,] ?(p\d+):", src))
+    decl = (set(m.start(1) for m in re.finditer(r"\blet (\w+)", src)) | set(m.start(1) for m in re.finditer(r"[(,] ?(\w+):", src))
+            | set(m.start(1) for m in re.finditer(r"\b(?:for|catch) (\w+)", src)))
     uses = [m for m in uses if m.start() not in decl]
+    # a use whose only binder is a shadowing `let` of the same name further up must stay bound to SOMETHING unknown:
+    # renaming the use is a fault whatever it was bound to, renaming a declaration is not
     if uses:
         m = rng.choice(uses)
         out.append((src[:m.start()] + "zz_undefined" + src[m.end():], "unknownIdent", f"use@{m.start()}"))
